@@ -102,6 +102,7 @@ def run_c17(prop, tier, seed, replay=None):
         scen = [{"kind": "lifecycle", "steps": [{"op": op, "stop": stop}]} for _ in range(reps) for op in OPS for stop in ("dead", "behind", "ahead")]
         scen += [{"kind": "lifecycle", "steps": [{"op": "Backlog", "stop": "behind"}]} for _ in range(2 * reps)]
         scen += [{"kind": "lifecycle", "steps": [{"op": "PeerFaults", "stop": "ahead"}]} for _ in range(3 * reps)]
+        scen += [{"kind": "lifecycle", "steps": [{"op": "Backlog", "stop": "leaving"}]} for _ in range(2 * reps)]
         # Lifecycle!KillIsComplete: deletion while a piece is being hashed
         scen += [{"kind": "killhash", "steps": []} for _ in range(2 * reps)]
         for i, sc in enumerate(scen):
@@ -140,9 +141,9 @@ def run_c02(prop, tier, seed, replay=None):
             raise Internal("Reader simulation: only %d behaviours" % len(scen))
         for i, sc in enumerate(scen):
             sc["id"] = i
-    if replay and scen[0].get("kind") == "fuseconc":
+    if replay and scen[0].get("kind") in ("fuseconc", "farread"):
         import p_http
-        p_http._drive(v, prop, scen, lambda c: "fuseconc")
+        p_http._drive(v, prop, scen, lambda c: c["kind"])
         return v.finish()
     applied, stats = harness(v, prop, scen, parallel=10, timeout=180)
     nfc = 0
@@ -159,7 +160,9 @@ def run_c02(prop, tier, seed, replay=None):
         fc = p_http._cases("MCFuseHandle", "FuseHandle_cases.cfg", v, 40)
         for i, c in enumerate(fc):
             c["id"], c["kind"] = i, "fuseconc"
-        nfc = p_http._drive(v, prop, fc, lambda c: "fuseconc")
+        # a torrent longer than 4 GiB: ranges across and beyond 2^32 through the store, a Reader, HTTP Range and FUSE
+        fc.append({"id": len(fc), "kind": "farread", "route": prop})
+        nfc = p_http._drive(v, prop, fc, lambda c: c["kind"])
         v.cov["fuse_handle"] = {"cases": nfc, "rule": "every (read A, read B, late piece) case of FuseHandle.tla on a real FUSE handle of a running torrent"}
     v.cov["traces_validated_against_impl"] = len(scen) + nfc
     v.cov["evaluations"] = len(scen) + nfc
